@@ -37,7 +37,7 @@ class Run:
 
     def optimize(self, solver=None, **kw):
         if solver is None and self.is_mip:
-            solver = "SCIPY"
+            solver = "SCIP"    # cvxpy's SCIPY/HiGHS MIP interface wrongly reports some feasible MIPs infeasible
         if solver is None:
             self.res = eao_call(self.op.optimize, **kw)
         else:
